@@ -463,7 +463,7 @@ func allChecks() []CheckSpec {
 				{Fn: "verifC14RoundTrip", Lemma: "k packets through the real writer then the real reader under every chunking: same sequence and contents, then EOF",
 					Bounds: "k <= 2 packets of 0..2 (quick) / 0..3 (thorough) bytes, every chunking", MustReach: []string{"done"}},
 				{Fn: "verifC14StartReading", Lemma: "tcpPacketConn.startReading + readFromContext: frames become packets in order with the peer address; a truncated tail ends in an error packet; the stream is closed and removed",
-					Bounds: "0..2 frames of 0..2 bytes, three tail shapes (none, half header, truncated body), every chunking", MustReach: []string{"done"}},
+					Bounds: "0..2 frames of 0..2 bytes, three tail shapes (none, half header, truncated body), every chunking", MustReach: []string{"oversized-frame", "done"}},
 			},
 			Assumptions: append([]string{
 				"net.Conn.Read contract: returns 1..len(p) bytes, or an error; never (0,nil) for a non-empty buffer",
